@@ -287,9 +287,42 @@ func (p *printer) subshell(x *ast.Subshell) {
 		p.newline()
 		p.indent()
 	} else {
+		if beginsWithParen(x.List[0]) {
+			// not ((
+			p.space()
+		}
 		p.command(x.List[0])
 	}
 	p.w.WriteByte(')')
+}
+
+// beginsWithParen reports whether the text of c begins with a left
+// parenthesis.
+func beginsWithParen(c ast.Command) bool {
+	for {
+		switch x := c.(type) {
+		case ast.List:
+			if len(x) == 0 {
+				return false
+			}
+			c = x[0]
+		case *ast.AndOrList:
+			c = x.Pipeline
+		case *ast.Pipeline:
+			if !x.Bang.IsZero() {
+				return false
+			}
+			c = x.Cmd
+		case *ast.Cmd:
+			switch x.Expr.(type) {
+			case *ast.Subshell, *ast.ArithEval:
+				return true
+			}
+			return false
+		default:
+			return false
+		}
+	}
 }
 
 func (p *printer) group(x *ast.Group) {
@@ -647,6 +680,10 @@ func (p *printer) cmdSubst(w *ast.CmdSubst) {
 		p.newline()
 		p.indent()
 	} else {
+		if w.Dollar && beginsWithParen(w.List[0]) {
+			// not $((
+			p.space()
+		}
 		p.command(w.List[0])
 	}
 	if w.Dollar {
